@@ -4,3 +4,13 @@ package gpbft
 
 // verifOrderDrained is a no-op unless built with the "verif" tag.
 func verifOrderDrained([]*GMessage) {}
+
+// verifCanonicalJustification and verifCanonicalConvergeJustification return their first argument
+// unless built with the "verif" tag.
+func verifCanonicalJustification(j *Justification, _ map[ECChainKey]*Justification) *Justification {
+	return j
+}
+
+func verifCanonicalConvergeJustification(j *Justification, _ map[ECChainKey]ConvergeValue) *Justification {
+	return j
+}
